@@ -409,6 +409,9 @@ class BaseEMSurvey(ObjectBase, ABC):  # pylint: disable=too-many-public-methods
 
                         if isinstance(prop_group, PropertyGroup):
                             prop_groups.append(prop_group.name)
+                        elif isinstance(value, str):
+                            # a component group owned by the linked survey: keep it listed
+                            prop_groups.append(value)
 
                     metadata["EM Dataset"]["Property groups"] = prop_groups
 
